@@ -113,3 +113,149 @@ Proof.
     replace ((N / (m * m) - 1) * (m * m)) with (N - m * m) by (field; lra).
     lra.
 Qed.
+
+(** ** the same for Vec2 and Vec4 (bound 9u), through a common tail lemma *)
+Lemma norm_tail S s2 N d5 : 0 < S ->
+  let lo := 1 - uu in let hi := 1 + uu in
+  S * (lo * lo * (lo * lo)) <= s2 <= S * (hi * hi * (hi * hi)) -> S * (lo * lo) <= N <= S * (hi * hi) -> Rabs d5 <= uu ->
+  let m := sqrt s2 * (1 + d5) in 0 < m /\ Rabs (N / (m * m) - 1) <= 9 * uu.
+Proof.
+  intros HS lo hi A4 N1 H5 m. pose proof uu_small as Hu. pose proof (d_bounds _ H5) as B5. fold lo hi in B5.
+  assert (Hlo : 0 < lo) by (unfold lo; lra). assert (Hhi : 0 < hi) by (unfold hi; lra).
+  assert (LL0 : 0 < lo * lo) by (apply Rmult_lt_0_compat; lra). assert (HH0 : 0 < hi * hi) by (apply Rmult_lt_0_compat; lra).
+  assert (L4 : 0 < lo * lo * (lo * lo)) by (apply Rmult_lt_0_compat; lra).
+  assert (Hs2 : 0 < s2) by (apply Rlt_le_trans with (S * (lo * lo * (lo * lo))); [ apply Rmult_lt_0_compat; lra | lra ]).
+  assert (Em : m * m = s2 * ((1 + d5) * (1 + d5))).
+  { unfold m. replace (sqrt s2 * (1 + d5) * (sqrt s2 * (1 + d5))) with (sqrt s2 * sqrt s2 * ((1 + d5) * (1 + d5))) by ring.
+    rewrite sqrt_sqrt by lra. reflexivity. }
+  assert (Hm : 0 < m) by (unfold m; apply Rmult_lt_0_compat; [ apply sqrt_lt_R0; exact Hs2 | lra ]).
+  assert (Q5 : lo * lo <= (1 + d5) * (1 + d5) <= hi * hi) by (split; [ apply lo_mul; lra | apply Rmult_le_compat; lra ]).
+  assert (M2 : S * (lo * lo * (lo * lo)) * (lo * lo) <= m * m <= S * (hi * hi * (hi * hi)) * (hi * hi)).
+  { assert (0 <= S * (lo * lo * (lo * lo))) by (apply Rmult_le_pos; lra).
+    rewrite Em. split; [ apply lo_mul; lra | apply Rmult_le_compat; lra ]. }
+  assert (Hmm : 0 < m * m) by (apply Rmult_lt_0_compat; exact Hm).
+  split; [ exact Hm | ].
+  assert (P1 : hi * hi <= (1 + 9 * uu) * (lo * lo * (lo * lo) * (lo * lo))).
+  { unfold lo, hi. assert (Uu2 : 0 <= uu * uu <= uu / 1000) by nra.
+    assert (Ll2 : 1 - 2 * uu <= (1 - uu) * (1 - uu) <= 1) by nra.
+    assert (Ll4 : 1 - 4 * uu <= (1 - uu) * (1 - uu) * ((1 - uu) * (1 - uu)) <= 1) by nra.
+    assert (Ll6 : 1 - 6 * uu <= (1 - uu) * (1 - uu) * ((1 - uu) * (1 - uu)) * ((1 - uu) * (1 - uu))) by nra.
+    assert (Hh2 : (1 + uu) * (1 + uu) <= 1 + 2 * uu + uu / 1000) by nra.
+    apply Rle_trans with (1 + 2 * uu + uu / 1000); [ exact Hh2 | ].
+    apply Rle_trans with ((1 + 9 * uu) * (1 - 6 * uu)); [ nra | apply Rmult_le_compat_l; lra ]. }
+  assert (P2 : (1 - 9 * uu) * (hi * hi * (hi * hi) * (hi * hi)) <= lo * lo).
+  { unfold lo, hi. assert (Uu2 : 0 <= uu * uu <= uu / 1000) by nra.
+    assert (Hh2 : 1 <= (1 + uu) * (1 + uu) <= 1 + 2 * uu + uu / 1000) by nra.
+    assert (Hh4 : 1 <= (1 + uu) * (1 + uu) * ((1 + uu) * (1 + uu)) <= 1 + 4 * uu + uu / 100).
+    { split; [ nra | apply Rle_trans with ((1 + 2 * uu + uu / 1000) * (1 + 2 * uu + uu / 1000)); [ apply Rmult_le_compat; lra | nra ] ]. }
+    assert (Hh6 : (1 + uu) * (1 + uu) * ((1 + uu) * (1 + uu)) * ((1 + uu) * (1 + uu)) <= 1 + 6 * uu + uu / 10).
+    { apply Rle_trans with ((1 + 4 * uu + uu / 100) * (1 + 2 * uu + uu / 1000)); [ apply Rmult_le_compat; lra | nra ]. }
+    apply Rle_trans with ((1 - 9 * uu) * (1 + 6 * uu + uu / 10)); [ apply Rmult_le_compat_l; lra | nra ]. }
+  assert (K1 : (1 - 9 * uu) * (m * m) <= (1 - 9 * uu) * (S * (hi * hi * (hi * hi)) * (hi * hi))) by (apply Rmult_le_compat_l; lra).
+  assert (K2 : (1 + 9 * uu) * (S * (lo * lo * (lo * lo)) * (lo * lo)) <= (1 + 9 * uu) * (m * m)) by (apply Rmult_le_compat_l; lra).
+  assert (K3 : S * ((1 - 9 * uu) * (hi * hi * (hi * hi) * (hi * hi))) <= S * (lo * lo)) by (apply Rmult_le_compat_l; lra).
+  assert (K4 : S * (hi * hi) <= S * ((1 + 9 * uu) * (lo * lo * (lo * lo) * (lo * lo)))) by (apply Rmult_le_compat_l; lra).
+  apply Rabs_le. split.
+  - apply Rmult_le_reg_r with (m * m); [ exact Hmm | ].
+    replace ((N / (m * m) - 1) * (m * m)) with (N - m * m) by (field; lra). lra.
+  - apply Rmult_le_reg_r with (m * m); [ exact Hmm | ].
+    replace ((N / (m * m) - 1) * (m * m)) with (N - m * m) by (field; lra). lra.
+Qed.
+
+Definition C11_float_normalized24_stmt : Prop :=
+  (forall k a, let x := a 0%nat in let y := a 1%nat in 0 < x * x + y * y ->
+     exists n0 n1, run (Rfl_ops k) (noF 0) a p_vec2_normalized = Ret ([], [n0; n1]) /\ Rabs (n0 * n0 + n1 * n1 - 1) <= 9 * uu) /\
+  (forall k a, let x := a 0%nat in let y := a 1%nat in let z := a 2%nat in let w := a 3%nat in 0 < x * x + y * y + z * z + w * w ->
+     exists n0 n1 n2 n3, run (Rfl_ops k) (noF 0) a p_vec4_normalized = Ret ([], [n0; n1; n2; n3]) /\
+       Rabs (n0 * n0 + n1 * n1 + n2 * n2 + n3 * n3 - 1) <= 9 * uu).
+
+
+Lemma C11_float_normalized24 : C11_float_normalized24_stmt.
+Proof.
+  pose proof uu_small as Hu. set (lo := 1 - uu). set (hi := 1 + uu).
+  assert (Hlo : 0 < lo) by (unfold lo; lra). assert (Hhi : 0 < hi) by (unfold hi; lra).
+  assert (Llo : lo * lo <= lo) by (unfold lo; nra). assert (Lhi : hi <= hi * hi) by (unfold hi; nra). assert (L1 : lo <= 1 <= hi) by (unfold lo, hi; lra).
+  assert (LL0 : 0 < lo * lo) by (apply Rmult_lt_0_compat; lra). assert (HH0 : 0 < hi * hi) by (apply Rmult_lt_0_compat; lra).
+  assert (LL4 : lo * lo * (lo * lo) <= lo * lo) by nra. assert (HH4 : hi * hi <= hi * hi * (hi * hi)) by nra.
+  assert (Sq : forall e, Rabs e <= uu -> lo * lo <= (1 + e) * (1 + e) <= hi * hi).
+  { intros e He. pose proof (d_bounds _ He) as B. fold lo hi in B. split; [ apply lo_mul; lra | apply Rmult_le_compat; lra ]. }
+  split.
+  - intros k a x y HS.
+    set (X := x * x). set (Y := y * y). assert (HX : 0 <= X) by (unfold X; nra). assert (HY : 0 <= Y) by (unfold Y; nra).
+    fold X Y in HS. set (S := X + Y) in *.
+    destruct (rnd_rel X) as (d0 & H0 & E0). destruct (rnd_rel Y) as (d1 & H1 & E1).
+    destruct (rnd_rel (rnd X + rnd Y)) as (d2 & H2 & E2). set (s2 := rnd (rnd X + rnd Y)) in *.
+    destruct (rnd_rel (sqrt s2)) as (d5 & H5 & E5). set (m := rnd (sqrt s2)) in *.
+    destruct (rnd_rel (x / m)) as (e0 & G0 & F0). destruct (rnd_rel (y / m)) as (e1 & G1 & F1).
+    exists (rnd (x / m)), (rnd (y / m)). split; [ reflexivity | ].
+    pose proof (d_bounds _ H0) as B0. pose proof (d_bounds _ H1) as B1. pose proof (d_bounds _ H2) as B2. fold lo hi in B0, B1, B2.
+    assert (Es2 : s2 = (X * (1 + d0) + Y * (1 + d1)) * (1 + d2)) by (rewrite E2, E0, E1; reflexivity).
+    assert (A1 : S * lo <= X * (1 + d0) + Y * (1 + d1) <= S * hi).
+    { unfold S. assert (X * lo <= X * (1 + d0) <= X * hi) by (split; apply Rmult_le_compat_l; lra).
+      assert (Y * lo <= Y * (1 + d1) <= Y * hi) by (split; apply Rmult_le_compat_l; lra). lra. }
+    assert (A1p : 0 <= S * lo) by (apply Rmult_le_pos; lra).
+    assert (A2 : S * lo * lo <= s2 <= S * hi * hi) by (rewrite Es2; split; [ apply lo_mul; lra | apply Rmult_le_compat; lra ]).
+    assert (A4 : S * (lo * lo * (lo * lo)) <= s2 <= S * (hi * hi * (hi * hi))).
+    { assert (S * (lo * lo * (lo * lo)) <= S * (lo * lo)) by (apply Rmult_le_compat_l; lra).
+      assert (S * (hi * hi) <= S * (hi * hi * (hi * hi))) by (apply Rmult_le_compat_l; lra). lra. }
+    set (N := X * ((1 + e0) * (1 + e0)) + Y * ((1 + e1) * (1 + e1))).
+    assert (N1 : S * (lo * lo) <= N <= S * (hi * hi)).
+    { unfold N, S. pose proof (Sq e0 G0) as Q0. pose proof (Sq e1 G1) as Q1.
+      assert (X * (lo * lo) <= X * ((1 + e0) * (1 + e0)) <= X * (hi * hi)) by (split; apply Rmult_le_compat_l; lra).
+      assert (Y * (lo * lo) <= Y * ((1 + e1) * (1 + e1)) <= Y * (hi * hi)) by (split; apply Rmult_le_compat_l; lra). lra. }
+    destruct (norm_tail S s2 N d5 HS A4 N1 H5) as (Hm & Bd). fold lo hi in Bd.
+    assert (Em : m = sqrt s2 * (1 + d5)) by exact E5. rewrite <- Em in Hm, Bd.
+    rewrite F0, F1.
+    replace (x / m * (1 + e0) * (x / m * (1 + e0)) + y / m * (1 + e1) * (y / m * (1 + e1))) with (N / (m * m)) by (unfold N, X, Y; field; lra).
+    exact Bd.
+  - intros k a x y z w HS.
+    set (X := x * x). set (Y := y * y). set (Z := z * z). set (W := w * w).
+    assert (HX : 0 <= X) by (unfold X; nra). assert (HY : 0 <= Y) by (unfold Y; nra). assert (HZ : 0 <= Z) by (unfold Z; nra). assert (HW : 0 <= W) by (unfold W; nra).
+    fold X Y Z W in HS. set (S := X + Y + Z + W) in *.
+    destruct (rnd_rel X) as (d0 & H0 & E0). destruct (rnd_rel Y) as (d1 & H1 & E1). destruct (rnd_rel Z) as (d2 & H2 & E2). destruct (rnd_rel W) as (d3 & H3 & E3).
+    destruct (rnd_rel (rnd X + rnd Y)) as (d4 & H4 & E4).
+    destruct (rnd_rel (rnd (rnd X + rnd Y) + rnd Z)) as (d6 & H6 & E6).
+    destruct (rnd_rel (rnd (rnd (rnd X + rnd Y) + rnd Z) + rnd W)) as (d7 & H7 & E7).
+    set (s2 := rnd (rnd (rnd (rnd X + rnd Y) + rnd Z) + rnd W)) in *.
+    destruct (rnd_rel (sqrt s2)) as (d5 & H5 & E5). set (m := rnd (sqrt s2)) in *.
+    destruct (rnd_rel (x / m)) as (e0 & G0 & F0). destruct (rnd_rel (y / m)) as (e1 & G1 & F1).
+    destruct (rnd_rel (z / m)) as (e2 & G2 & F2). destruct (rnd_rel (w / m)) as (e3 & G3 & F3).
+    exists (rnd (x / m)), (rnd (y / m)), (rnd (z / m)), (rnd (w / m)). split; [ reflexivity | ].
+    pose proof (d_bounds _ H0) as B0. pose proof (d_bounds _ H1) as B1. pose proof (d_bounds _ H2) as B2. pose proof (d_bounds _ H3) as B3.
+    pose proof (d_bounds _ H4) as B4. pose proof (d_bounds _ H6) as B6. pose proof (d_bounds _ H7) as B7. fold lo hi in B0, B1, B2, B3, B4, B6, B7.
+    assert (Es2 : s2 = (((X * (1 + d0) + Y * (1 + d1)) * (1 + d4) + Z * (1 + d2)) * (1 + d6) + W * (1 + d3)) * (1 + d7)).
+    { rewrite E7, E6, E4, E0, E1, E2, E3. reflexivity. }
+    assert (A1 : (X + Y) * lo <= X * (1 + d0) + Y * (1 + d1) <= (X + Y) * hi).
+    { assert (X * lo <= X * (1 + d0) <= X * hi) by (split; apply Rmult_le_compat_l; lra).
+      assert (Y * lo <= Y * (1 + d1) <= Y * hi) by (split; apply Rmult_le_compat_l; lra). lra. }
+    assert (A1p : 0 <= (X + Y) * lo) by (apply Rmult_le_pos; lra).
+    assert (A2 : (X + Y) * lo * lo <= (X * (1 + d0) + Y * (1 + d1)) * (1 + d4) <= (X + Y) * hi * hi) by (split; [ apply lo_mul; lra | apply Rmult_le_compat; lra ]).
+    assert (A3 : (X + Y + Z) * (lo * lo) <= (X * (1 + d0) + Y * (1 + d1)) * (1 + d4) + Z * (1 + d2) <= (X + Y + Z) * (hi * hi)).
+    { assert (Z * (lo * lo) <= Z * (1 + d2)) by (apply Rmult_le_compat_l; lra).
+      assert (Z * (1 + d2) <= Z * (hi * hi)) by (apply Rmult_le_compat_l; lra). lra. }
+    assert (A3p : 0 <= (X + Y + Z) * (lo * lo)) by (apply Rmult_le_pos; lra).
+    assert (A5 : (X + Y + Z) * (lo * lo) * lo <= ((X * (1 + d0) + Y * (1 + d1)) * (1 + d4) + Z * (1 + d2)) * (1 + d6) <= (X + Y + Z) * (hi * hi) * hi)
+      by (split; [ apply lo_mul; lra | apply Rmult_le_compat; lra ]).
+    assert (L3 : lo * lo * lo <= 1 + d3 <= hi * hi * hi) by (split; nra).
+    assert (A6 : S * (lo * lo * lo) <= ((X * (1 + d0) + Y * (1 + d1)) * (1 + d4) + Z * (1 + d2)) * (1 + d6) + W * (1 + d3) <= S * (hi * hi * hi)).
+    { unfold S. assert (W * (lo * lo * lo) <= W * (1 + d3) <= W * (hi * hi * hi)) by (split; apply Rmult_le_compat_l; lra). lra. }
+    assert (L3p : 0 < lo * lo * lo) by (apply Rmult_lt_0_compat; lra).
+    assert (A6p : 0 <= S * (lo * lo * lo)) by (apply Rmult_le_pos; lra).
+    assert (H3p : 0 < hi * hi * hi) by (apply Rmult_lt_0_compat; lra).
+    assert (A4 : S * (lo * lo * (lo * lo)) <= s2 <= S * (hi * hi * (hi * hi))).
+    { rewrite Es2. replace (S * (lo * lo * (lo * lo))) with (S * (lo * lo * lo) * lo) by ring. replace (S * (hi * hi * (hi * hi))) with (S * (hi * hi * hi) * hi) by ring.
+      split; [ apply lo_mul; lra | apply Rmult_le_compat; lra ]. }
+    set (N := X * ((1 + e0) * (1 + e0)) + Y * ((1 + e1) * (1 + e1)) + Z * ((1 + e2) * (1 + e2)) + W * ((1 + e3) * (1 + e3))).
+    assert (N1 : S * (lo * lo) <= N <= S * (hi * hi)).
+    { unfold N, S. pose proof (Sq e0 G0) as Q0. pose proof (Sq e1 G1) as Q1. pose proof (Sq e2 G2) as Q2. pose proof (Sq e3 G3) as Q3.
+      assert (X * (lo * lo) <= X * ((1 + e0) * (1 + e0)) <= X * (hi * hi)) by (split; apply Rmult_le_compat_l; lra).
+      assert (Y * (lo * lo) <= Y * ((1 + e1) * (1 + e1)) <= Y * (hi * hi)) by (split; apply Rmult_le_compat_l; lra).
+      assert (Z * (lo * lo) <= Z * ((1 + e2) * (1 + e2)) <= Z * (hi * hi)) by (split; apply Rmult_le_compat_l; lra).
+      assert (W * (lo * lo) <= W * ((1 + e3) * (1 + e3)) <= W * (hi * hi)) by (split; apply Rmult_le_compat_l; lra). lra. }
+    destruct (norm_tail S s2 N d5 HS A4 N1 H5) as (Hm & Bd). fold lo hi in Bd.
+    assert (Em : m = sqrt s2 * (1 + d5)) by exact E5. rewrite <- Em in Hm, Bd.
+    rewrite F0, F1, F2, F3.
+    replace (x / m * (1 + e0) * (x / m * (1 + e0)) + y / m * (1 + e1) * (y / m * (1 + e1)) + z / m * (1 + e2) * (z / m * (1 + e2)) + w / m * (1 + e3) * (w / m * (1 + e3)))
+      with (N / (m * m)) by (unfold N, X, Y, Z, W; field; lra).
+    exact Bd.
+Qed.
